@@ -543,7 +543,7 @@ pub fn run(ctx: &Ctx) -> Report {
          oracle = every call returns normally (no unwind, child survives, no watchdog); non-trivial = the input deserialised, >=1 rule matched and the action was applied, or a probe ran; distinct by case hash / by construction",
     );
     rep.assume("logger initialisation functions are excluded (redirectionio_log_init_with_callback takes a Rust reference; repeated initialisation is documented to fail); termination is a bounded observation (120 s watchdog per probe, reported as infrastructure trouble, never as a violation)");
-    rep.add(run_part(ctx, "pipelines", ctx.cases(40_000, 2_000_000), strategy, check, &[]));
+    rep.add(run_part(ctx, "pipelines", ctx.cases(100_000, 3_000_000), strategy, check, &[]));
     if rep.has_violation() {
         return rep;
     }
